@@ -48,12 +48,12 @@ def build_e2base(features=()):
     return (deps, rlibs[-1]), ""
 
 
-def build_e2base_nightly():
-    tdir = os.path.join(C.BUILD, "e2base-nightly")
+def build_e2base_nightly(features=()):
+    tdir = os.path.join(C.BUILD, "e2base-nightly" + ("-" + "-".join(features) if features else ""))
     env = dict(C.ENV_BASE, CARGO_TARGET_DIR=tdir)
     t0 = time.time()
-    rc, out, err = _run(["cargo", "+nightly", "build", "--offline"], cwd=E2BASE, env=env)
-    C.log(f"[build] e2base (nightly): {'ok' if rc == 0 else 'FAILED'} in {time.time() - t0:.1f}s")
+    rc, out, err = _run(["cargo", "+nightly", "build", "--offline"] + (["--features", ",".join(features)] if features else []), cwd=E2BASE, env=env)
+    C.log(f"[build] e2base (nightly{'+' + '+'.join(features) if features else ''}): {'ok' if rc == 0 else 'FAILED'} in {time.time() - t0:.1f}s")
     if rc != 0:
         return None, err
     deps = os.path.join(tdir, "debug", "deps")
@@ -84,16 +84,16 @@ def strip_literals(text):
     return "".join(out)
 
 
-def run_expansion_scan(mlib, seed, files, cases):
+def run_expansion_scan(mlib, seed, files, cases, features=()):
     """rustc's own macro expansion of generated client programs must contain no `unsafe` token
     (the unsafe_code lint does not look inside proc-macro output, so forbid() alone proves nothing)."""
     import re
     stats, finds, incon = {"expanded_programs": 0, "expanded_bytes": 0, "expanded_query_invocations": 0}, [], []
-    base, err = build_e2base_nightly()
+    base, err = build_e2base_nightly(features)
     if not base:
         incon.append("nightly e2base build failed: " + err[-300:])
         return stats, finds, incon
-    outdir = os.path.join(E2DIR, f"bare-{seed}")
+    outdir = os.path.join(E2DIR, f"bare-{seed}" + "".join("-" + f for f in features))
     shutil.rmtree(outdir, ignore_errors=True)
     rc, out, err = _run([mlib, "bare", f"seed={seed}", f"out={outdir}", f"files={files}", f"cases={cases}"])
     if rc != 0:
